@@ -126,6 +126,8 @@ where
             }
           }
           s_error.error(e);
+          // a terminal ends the subscriber: release its remaining callbacks
+          s_error.unsubscribe();
         },
         move || {
           {
@@ -136,6 +138,7 @@ where
             }
           }
           s_complete.complete();
+          s_complete.unsubscribe();
         },
       ));
 
@@ -191,6 +194,8 @@ where
         if let Some(sbsc) = &*sbsc.read().unwrap() {
           sbsc.unsubscribe();
         }
+        // also after a terminal: this releases its remaining callbacks
+        s.unsubscribe();
       }
     })
   }
